@@ -48,6 +48,8 @@ const (
 	ptPhiStruct
 	ptCellViaHelper
 	ptCallViaLibrary
+	ptGlobalViaIface
+	ptGlobalViaReturn
 	ptNumTransports
 )
 
@@ -212,6 +214,11 @@ func verifNewPtrWorld(mode int) *verifPtrWorld {
 			// the tracked allocations are cells holding a *N: elem = *N, P = **N
 			w.elem = w.P
 			w.P = types.NewPointer(w.elem)
+		}
+		if mode == 3 {
+			// the transported data is a string (no pointer involved in the data itself)
+			w.elem = nil
+			w.P = types.Typ[types.String]
 		}
 	}
 	w.PP = types.NewPointer(w.P)
@@ -627,6 +634,26 @@ func (w *verifPtrWorld) transport(t int, v ssa.Value, other ssa.Value, variant i
 		w.Calls = append(w.Calls, verifPtrCall{w.libDo.Blocks[0].Instrs[0].(*ssa.Call), cb})
 		w.Params = append(w.Params, w.libDo.Params[1], cb.Params[0])
 		return q
+	case ptGlobalViaIface:
+		// setG(v) (a function storing its argument into G) ; var e any = &G ; q = *(e.(*T))
+		w.call(w.setG(), []ssa.Value{v}, types.NewTuple(), w.setG())
+		e := w.val(&ssa.MakeInterface{X: w.global}, w.E)
+		pp := w.val(&ssa.TypeAssert{X: e, AssertedType: w.PP}, w.PP)
+		w.Cells = append(w.Cells, w.global, pp)
+		return w.load(pp, w.P)
+	case ptGlobalViaReturn:
+		// setG(v) ; q = *getG()  with  func getG() *T { return &G }
+		var f *ssa.Function
+		if m, ok := w.pkg.Members["getG"]; ok {
+			f = m.(*ssa.Function)
+		} else {
+			f = w.newFn("getG", w.sig(nil, []types.Type{w.PP}))
+			w.simpleFn(f, []ssa.Instruction{&ssa.Return{Results: []ssa.Value{w.global}}})
+		}
+		w.call(w.setG(), []ssa.Value{v}, types.NewTuple(), w.setG())
+		pp := w.call(f, nil, w.PP, f)
+		w.Cells = append(w.Cells, w.global, pp)
+		return w.load(pp, w.P)
 	case ptInvokeCallback:
 		// var i I = T_k{} ; i.run(id_k', v)  (result-less interface call taking a function value) ; q = G
 		tp := w.alloc(w.namedT[variant], "recv")
@@ -1168,6 +1195,18 @@ func VerifBuildPtrProgram(ts, variants []int, k, split int) *VerifPtrProgram {
 // main or (from position split on) inside a callee; with sinkForm 1 the sink receives a pointer to a struct whose
 // field holds q (the tainted data is in memory reachable from the argument).
 
+// setG returns  func setG(p T) { G = p }
+func (w *verifPtrWorld) setG() *ssa.Function {
+	return w.fnWith("setG", []types.Type{w.P}, func(ps []ssa.Value) { w.store(w.global, ps[0]) })
+}
+
+// VerifGlobalReadThroughCopy reports whether transport t reads a global through a copy of its address made by an
+// instruction other than a load / call argument (ChangeType, MakeInterface, Return): the region of the recorded
+// finding KF-C01-global-address-copy when the data itself is not a pointer.
+func VerifGlobalReadThroughCopy(t int) bool {
+	return t == ptInvokeCallback || t == ptGlobalViaIface || t == ptGlobalViaReturn
+}
+
 // VerifSequentialTransport reports whether transport t is an explicit data operation of the sequential fragment
 // (no goroutine, channel or select involved).
 func VerifSequentialTransport(t int) bool {
@@ -1178,13 +1217,22 @@ func VerifSequentialTransport(t int) bool {
 	return true
 }
 
-func VerifBuildDirectFlow(ts, variants []int, split int, sinkForm int) *VerifFlowWorld {
-	w := verifNewPtrWorld(1)
+func VerifBuildDirectFlow(ts, variants []int, split int, sinkForm int, stringData bool) *VerifFlowWorld {
+	mode := 1
+	if stringData {
+		mode = 3
+	}
+	w := verifNewPtrWorld(mode)
 	out := &VerifFlowWorld{Prog: w.prog, Funcs: w.funcs}
 	src := w.newFn("source", w.sig(nil, []types.Type{w.P}))
 	{
 		w.beginFn(src)
-		a := w.alloc(w.elem, "secret")
+		var a ssa.Value
+		if stringData {
+			a = ssa.NewConst(constant.MakeString("secret"), w.P)
+		} else {
+			a = w.alloc(w.elem, "secret")
+		}
 		w.emit(&ssa.Return{Results: []ssa.Value{a}})
 		w.endFn()
 	}
@@ -1202,7 +1250,11 @@ func VerifBuildDirectFlow(ts, variants []int, split int, sinkForm int) *VerifFlo
 		midFn = w.newFn("mid", w.sig([]types.Type{w.P, w.P}, []types.Type{w.P}))
 	}
 	w.beginFn(mainFn)
-	w.A[1] = w.alloc(w.elem, "other")
+	if stringData {
+		w.A[1] = ssa.NewConst(constant.MakeString("other"), w.P)
+	} else {
+		w.A[1] = w.alloc(w.elem, "other")
+	}
 	sc := &ssa.Call{}
 	sc.Call.Value = src
 	v := w.val(sc, w.P)
